@@ -101,13 +101,26 @@ func ruleC12(c *Ctx, r *Result) {
 		}
 	}
 	// C12.1
-	for _, site := range c.callsTo(w2g, func(n string) bool { return n == "hdf5.globalHeapWriter.createNewHeap" }) {
-		ok := mustPrecede(site.(ssa.Instruction), guarded("hdf5.globalHeapWriter.flushCurrentHeap", "hdf5.globalHeapWriter.currentHeap"))
-		r.Check(ok, "C12.1", c.Name(w2g)+"#flush-before-replace", c.InstrPos(site), "the current collection is flushed (when there is one) before a new one replaces it")
-	}
-	for _, fs := range c.DirectFieldStores(w2g) {
-		if fs.Key == "hdf5.globalHeapWriter.currentHeap" {
-			r.Viol("C12.1", c.Name(w2g)+"#replaces-collection-directly", c.InstrPos(fs.In), "WriteToGlobalHeap assigns currentHeap itself; replacement must go through createNewHeap behind the flush")
+	// every caller of createNewHeap in the root package, and every function that assigns currentHeap
+	for _, caller := range c.LibFuncs() {
+		if shortPkg(fnPkgPath(caller)) != "hdf5" || caller == cnh {
+			continue
+		}
+		for _, site := range c.callsTo(caller, func(n string) bool { return n == "hdf5.globalHeapWriter.createNewHeap" }) {
+			if site.Parent() != caller {
+				continue
+			}
+			ok := mustPrecede(site.(ssa.Instruction), guarded("hdf5.globalHeapWriter.flushCurrentHeap", "hdf5.globalHeapWriter.currentHeap"))
+			r.Check(ok, "C12.1", c.Name(caller)+"#flush-before-replace", c.InstrPos(site), "the current collection is flushed (when there is one) before a new one replaces it")
+		}
+		for _, fs := range c.DirectFieldStores(caller) {
+			if fs.Fn != caller || fs.Key != "hdf5.globalHeapWriter.currentHeap" {
+				continue
+			}
+			if isNilConst(fs.Val) || c.underConstruction(caller) {
+				continue // reset after a flush / constructor
+			}
+			r.Viol("C12.1", c.Name(caller)+"#replaces-collection-directly", c.InstrPos(fs.In), c.Name(caller)+" assigns currentHeap itself; a collection becomes current only through createNewHeap behind the flush (a collection that is swapped out by assignment is never written)")
 		}
 	}
 	for _, ret := range successReturns(closeFn) {
